@@ -46,6 +46,22 @@ func OpenFresh(name string) (*mk.Engine, error) {
 	return eng, nil
 }
 
+// Reopen closes and reopens the selected database the way a session does when
+// the user switches away and back (USE other; USE this): the store is flushed
+// and closed, the data file opened again WITHOUT the start-up log replay.
+func Reopen(eng *mk.Engine) error {
+	if err := eng.Exec("CREATE DATABASE d_other"); err != nil && !strings.Contains(err.Error(), "exists") {
+		return fmt.Errorf("CREATE DATABASE d_other: %w", err)
+	}
+	if err := eng.Exec("USE d_other"); err != nil {
+		return fmt.Errorf("USE d_other: %w", err)
+	}
+	if err := eng.Exec("USE " + DBName); err != nil {
+		return fmt.Errorf("USE %s: %w", DBName, err)
+	}
+	return nil
+}
+
 // IDTracker checks what the properties say about row ids: a row keeps its id,
 // ids strictly increase in insertion order within a table, and an id is never
 // used for two different rows, database-wide, ever.
